@@ -9,6 +9,7 @@ package c07
 
 import (
 	"bytes"
+	"encoding/base64"
 	"encoding/binary"
 	"encoding/json"
 	"fmt"
@@ -102,6 +103,22 @@ func (r *flvRec) Consume(p media.Pack) {
 func (r *flvRec) Close() error { return nil }
 
 // packets ----------------------------------------------------------------------------------------------------
+func baseCodec(c string) string { return strings.TrimSuffix(c, "n") }
+
+var (
+	sps264, _ = base64.StdEncoding.DecodeString("Z2QAH6zZQFAFuhAAAAMAEAAAAwPI8YMZYA==")
+	pps264, _ = base64.StdEncoding.DecodeString("aO+8sA==")
+	vps265, _ = base64.StdEncoding.DecodeString("QAEMAf//AWAAAAMAkAAAAwAAAwBdlZgJ")
+	sps265, _ = base64.StdEncoding.DecodeString("QgEBAWAAAAMAkAAAAwAAAwBdoAKAgC0WWVmkkyuAQAAA+kAAF3AC")
+	pps265, _ = base64.StdEncoding.DecodeString("RAHBcrRiQA==")
+)
+
+// without sprop-*: the parameter sets have to come in band
+func noSprop(raw string) string {
+	re := regexp.MustCompile(`(?m)^a=fmtp:96 .*$`)
+	return re.ReplaceAllString(raw, "a=fmtp:96 packetization-mode=1")
+}
+
 type world struct {
 	codec string
 	seq   map[byte]uint16
@@ -235,6 +252,39 @@ func (w *world) faults(c fcase, ts uint32, rng *rand.Rand) []*rtp.Packet {
 			rng.Read(b)
 			copy(b, agg[:len(agg)-13])
 			vid(b)
+		case "paramset-truncate-every":
+			sets := [][]byte{sps264, pps264}
+			if h265 {
+				sets = [][]byte{vps265, sps265, pps265}
+			}
+			for _, ps := range sets {
+				for n := 1; n < len(ps); n++ {
+					vid(ps[:n])
+				}
+			}
+		case "paramset-short": // a sequence parameter set cut after three bytes, nothing else
+			if h265 {
+				vid(sps265[:4])
+			} else {
+				vid(sps264[:3])
+			}
+		case "paramset-garbage":
+			hdrs := [][]byte{{0x67}, {0x68}}
+			if h265 {
+				hdrs = [][]byte{{32 << 1, 1}, {33 << 1, 1}, {34 << 1, 1}}
+			}
+			for _, h := range hdrs {
+				for k := 0; k < 4; k++ {
+					b := make([]byte, 3+rng.Intn(40))
+					rng.Read(b)
+					if k == 0 {
+						for i := range b {
+							b[i] = 0xff
+						}
+					}
+					vid(append(append([]byte(nil), h...), b...))
+				}
+			}
 		case "padding-beyond", "extension-beyond", "csrc-beyond":
 			out = append(out, w.hdrFault(rtp.ChannelVideo, 96, ts, c.Fault)...)
 		}
@@ -340,28 +390,43 @@ func (w *world) hdrFault(ch byte, pt byte, ts uint32, kind string) []*rtp.Packet
 	case "csrc-beyond":
 		h[0] |= 0x0f
 	}
-	p := &rtp.Packet{Channel: ch, Data: append(h, body...)}
-	if err := p.Header.Unmarshal(p.Data); err != nil {
-		return nil // the session refuses it before the stream sees it
+	bodies := [][]byte{body}
+	if kind == "padding-beyond" { // every pad count from "one more than the payload" to "more than the whole packet"
+		bodies = nil
+		for _, pad := range []byte{5, 8, 15, 16, 17, 200, 255} {
+			bodies = append(bodies, []byte{0x41, 1, 2, pad})
+		}
 	}
-	return []*rtp.Packet{p}
+	var out []*rtp.Packet
+	for _, b := range bodies {
+		p := &rtp.Packet{Channel: ch, Data: append(append([]byte(nil), h...), b...)}
+		if err := p.Header.Unmarshal(p.Data); err != nil {
+			continue // the session refuses it before the stream sees it
+		}
+		out = append(out, p)
+	}
+	return out
 }
 
 type strm struct {
-	s    *media.Stream
-	rtp  *rtpRec
-	flv  *flvRec
-	w    *world
-	good struct{ rtpIDs, frameIDs, hlsIDs []string }
+	inband bool // the SDP carries no parameter sets: the good stream repeats them in band before every key frame
+	s      *media.Stream
+	rtp    *rtpRec
+	flv    *flvRec
+	w      *world
+	good   struct{ rtpIDs, frameIDs, hlsIDs []string }
 }
 
 func newStrm(path, codec, tag string) *strm {
 	raw := sdp264
-	if codec == "h265" {
+	if baseCodec(codec) == "h265" {
 		raw = sdp265
 	}
-	st := &strm{s: media.NewStream(path, raw), rtp: &rtpRec{rec{ids: map[string]bool{}}}, flv: &flvRec{rec{ids: map[string]bool{}}},
-		w: &world{codec: codec, seq: map[byte]uint16{}, tag: tag}}
+	if codec != baseCodec(codec) {
+		raw = noSprop(raw)
+	}
+	st := &strm{inband: codec != baseCodec(codec), s: media.NewStream(path, raw), rtp: &rtpRec{rec{ids: map[string]bool{}}}, flv: &flvRec{rec{ids: map[string]bool{}}},
+		w: &world{codec: baseCodec(codec), seq: map[byte]uint16{}, tag: tag}}
 	st.s.StartConsume(st.rtp, media.RTPPacket, "c07")
 	st.s.StartConsume(st.flv, media.FLVPacket, "c07")
 	return st
@@ -380,6 +445,16 @@ func (st *strm) write(p *rtp.Packet) (panicked bool) {
 // round writes one group of pictures at second 6*r: key frame, two other frames, one AAC frame
 func (st *strm) round(r int, count bool, hls bool) {
 	ts := uint32(r) * 6 * 90000
+	// the parameter sets in band, as cameras send them in front of every key frame
+	sets := [][]byte{sps264, pps264}
+	if st.w.codec == "h265" {
+		sets = [][]byte{vps265, sps265, pps265}
+	}
+	if st.inband {
+		for _, ps := range sets {
+			st.write(st.w.pkt(rtp.ChannelVideo, 96, ts, ps))
+		}
+	}
 	for k := 0; k < 3; k++ {
 		p, id := st.w.video(k == 0, ts+uint32(k)*3000)
 		st.write(p)
@@ -412,7 +487,7 @@ func (st *strm) hlsHas(ids []string) int {
 		}
 		var buf bytes.Buffer
 		buf.ReadFrom(rd)
-		r := tsdemux.Parse(buf.Bytes(), nil, nil)
+		r := tsdemux.Parse(buf.Bytes(), sps264, pps264)
 		for _, u := range r.Video {
 			for _, m := range idRe.FindAll(u.Body, -1) {
 				found[string(m)] = true
@@ -480,7 +555,7 @@ func TestContain(t *testing.T) {
 		}
 		a := newStrm(fmt.Sprintf("/c07/a%d", tid), c.Codec, "a")
 		b := newStrm(fmt.Sprintf("/c07/b%d", tid), c.Codec, "b")
-		hlsA := c.Codec == "h264"
+		hlsA := baseCodec(c.Codec) == "h264"
 		writePanic := false
 		inject := func(r int) int {
 			ps := a.w.faults(c, uint32(r)*6*90000+9000, rng)
